@@ -16,6 +16,8 @@ mod rec_fe;
 mod fam_proxy;
 mod fam_besrv;
 mod fam_gpu;
+mod fam_ring;
+mod fam_worker;
 mod peer;
 mod daemon;
 mod fam_route;
@@ -80,6 +82,8 @@ fn fam_dispatch(fam: &str, line: &str) -> Option<String> {
         "proxy" => Some(fam_proxy::run(line)),
         "besrv" => Some(fam_besrv::run(line)),
         "gpu" => Some(fam_gpu::run(line)),
+        "ring" => Some(fam_ring::run(line)),
+        "worker" => Some(fam_worker::run(line)),
         _ => None,
     }
 }
